@@ -356,7 +356,7 @@ TOOLS = "TLC 1.8 (tla2tools) evaluates the specification exactly over 32-bit int
 
 # ---------------------------------------------------------------- trace judging
 
-def judge_trace(module, trace_path, workers=8, timeout=1800, cfg=None, env=None):
+def judge_trace(module, trace_path, workers=8, timeout=1800, cfg=None, env=None, split=False):
     """Run a TraceBase-style trace spec over an ndjson event file.  Returns
     (events, mismatches, tlc_result) where mismatches are the parsed MISMATCH
     tuples [tag,pos,exp,pred,site,...].  Raises Inconclusive unless TLC
@@ -364,10 +364,11 @@ def judge_trace(module, trace_path, workers=8, timeout=1800, cfg=None, env=None)
     events = [json.loads(l) for l in open(trace_path)]
     if not events:
         raise Inconclusive("empty trace " + trace_path)
-    # TLC holds the whole trace as values (about 50 times the size of the text): long traces are judged in parts
+    # TLC holds the whole trace as values (about 50 times the size of the text): long traces are judged in parts -
+    # only where every event is judged on its own (split=True); traces whose events refer to earlier ones stay whole
     size = os.path.getsize(trace_path)
     part_max = 40000 if size / max(1, len(events)) < 800 else 12000
-    if len(events) > part_max or size > 60e6:
+    if split and (len(events) > part_max or size > 60e6):
         nparts = max((len(events) + part_max - 1) // part_max, int(size // 40e6) + 1)
         per = (len(events) + nparts - 1) // nparts
         lines = open(trace_path).readlines()
@@ -379,7 +380,7 @@ def judge_trace(module, trace_path, workers=8, timeout=1800, cfg=None, env=None)
             pp = "%s.part%d" % (trace_path, k)
             with open(pp, "w") as f:
                 f.writelines(chunk)
-            _, mism, r = judge_trace(module, pp, workers=workers, timeout=timeout, cfg=cfg, env=env)
+            _, mism, r = judge_trace(module, pp, workers=workers, timeout=timeout, cfg=cfg, env=env, split=False)
             os.remove(pp)
             for m in mism:
                 m[1] += k * per
